@@ -38,6 +38,7 @@ IR_RUNS.update({
                          ("MC", "hier_edit", 10, 400), ("MC", "hier_walk", 16, 1500)]},
     "C07": {"quick": [("MC", "clone", 2), ("MC", "clone_edit", 0)],
             "thorough": [("MC", "clone", 5), ("MC", "clone", 10, 60), ("MC", "clone_edit", 1)]},
+    "C20": {"quick": [("MC", "compare", 0)], "thorough": [("MC", "compare", 0)]},
     "C13": {"quick": [("MC", "query", 1)], "thorough": [("MC", "query", 30)]},
     "C08": {"quick": [("MC", "xf", 3), ("MC", "xf_port", 4), ("MC", "xf", 12, 40)],
             "thorough": [("MC", "xf", 5), ("MC", "xf_port", 11), ("MC", "xf", 14, 1500)]},
@@ -47,6 +48,11 @@ IR_RUNS.update({
             "thorough": [("MC", "hier12", 5), ("MC", "hier12", 14, 1000)]},
 })
 IR_RULE = {
+    "C20": "a named two-library design (bus port, directions, properties, cross-library references) is built twice; "
+           "Comparer is run on the pair as built, on (netlist, clone), and after every single structural mutation of one of "
+           "them (drop / add one library, definition, port, cable, instance, pin, wire; change a direction, array-ness; "
+           "re-point an instance; change a property; rename; disconnect; move one connection to any other free pin), in both "
+           "argument orders; distinct_nontrivial counts distinct mutated pairs",
     "C13": "on a fixed design with colliding names (case variants, prefixes, unnamed elements, a user key, identifiers) TLC "
            "draws a seeded random subset of the query product (13 functions x root kinds x selection x recursive x key x 1-2 "
            "patterns derived from the values present x is_case x is_re x filter); each is run together with the unfiltered "
@@ -151,6 +157,10 @@ def _c13_detail(sig, rec):
 
 
 def _detail(sig, clause, rec, header):
+    if clause.startswith("C20"):
+        sig["raised"] = rec.get("raised", "")
+        sig["copy_made_by"] = "clone" if any(c.get("op") == "clone" for c in header.get("h_all", [])) else "second build"
+        return sig
     if clause.startswith("C13") and rec.get("call", {}).get("op") == "q":
         return _c13_detail(sig, rec)
     st = rec.get("state") if rec.get("state") else header.get("state")
@@ -216,6 +226,7 @@ def ir_history(pid, tier, seed, replay=None, runs=None, strict=True):
                         continue
                     header, hist, rec = irflow.history_of(v["path"], k)
                     prerec = rec if rec["t"] == "reset" else irflow.read_record(v["path"], rec["pre"])
+                    prerec = dict(prerec, h_all=hist)
                     sig = _detail(_sig_of(rec, {"h": hist}), clause, rec, prerec)
                     res.violations.append({
                         "clause": clause, "signature": sig,
@@ -263,4 +274,4 @@ def ir_history(pid, tier, seed, replay=None, runs=None, strict=True):
 
 
 HANDLERS = {"C01": ir_history, "C02": ir_history, "C14": ir_history, "C10": ir_history, "C19": ir_history, "C11": ir_history,
-            "C12": ir_history, "C08": ir_history, "C09": ir_history, "C07": ir_history, "C13": ir_history}
+            "C12": ir_history, "C08": ir_history, "C09": ir_history, "C07": ir_history, "C13": ir_history, "C20": ir_history}
